@@ -19,6 +19,9 @@ pub assume_specification<'a>[ str::trim_start ](s: &'a str) -> (r: &'a str)
 pub assume_specification<'a>[ str::trim_end ](s: &'a str) -> (r: &'a str)
     ensures r@ == trim_end_spec(s@), str_offset_in(r, s) == 0, blen(r@) <= blen(s@);
 
+pub assume_specification<'a>[ str::trim_ascii ](s: &'a str) -> (r: &'a str)
+    ensures r@ == trim_ascii_spec(s@), str_offset_in(r, s) == trim_lead(s@), trim_lead(s@) + blen(r@) <= blen(s@);
+
 #[verifier::external_body]
 pub fn verif_str_len(s: &str) -> (r: usize)
     ensures r == blen(s@), r <= isize::MAX // a str is at most isize::MAX bytes (std doc of slices)
